@@ -894,7 +894,26 @@ func (it *Interp) spawn(fnv Value, args []Value, call *ssa.CallCommon) {
 	}
 	pg := &pendingGo{fnv: fnv, args: args, call: call, label: label}
 	it.pending = append(it.pending, pg)
-	if it.job.GoInline != nil && it.job.GoInline(label) {
+	inline := it.job.GoInline != nil && it.job.GoInline(label)
+	if !inline && len(it.job.GoInlineCalls) > 0 {
+		var gfn *ssa.Function
+		switch f := fnv.(type) {
+		case *ssa.Function:
+			gfn = f
+		case *Closure:
+			if f != nil {
+				gfn = f.fn
+			}
+		}
+		if gfn != nil {
+			for _, cn := range it.job.GoInlineCalls {
+				if callsNamed(gfn, cn) {
+					inline = true
+				}
+			}
+		}
+	}
+	if inline {
 		pg.done = true
 		it.callValue(fnv, args, call)
 	}
